@@ -8,7 +8,8 @@ PROPS = "props/C12.v"
 N_QUICK = 2500
 N_THOROUGH = 40000
 RULE = ("the configurations of C11 (1-4 inputs, intervals on chr1/chr2/chr10, both grouping modes, contigs +/-, "
-        "plain LocatableByAllele objects and scheme-less MafRecords) with reference alleles from {A,C,G} and "
+        "plain LocatableByAllele objects, scheme-less MafRecords and gdc-1.0.0 MafRecords read under Silent, whose "
+        "alts is the real [Tumor_Seq_Allele2] incl. the empty cell) with reference alleles from {A,C,G} and "
         "alternate-allele lists that are empty, single, repeated, permuted, overlapping or contained, under each "
         "of the three relations; streams: valid, allele-dense (one locus, many allele classes), single defect "
         "(descent / name-sorted under contigs), adversarial (false records, shuffled inputs, no inputs). "
@@ -153,8 +154,17 @@ def _dense(rng):
                 alts = [rng.choice(pool) for _ in range(rng.randint(0, 3))]
             recs.append([0, True, "T1", "N1", rng.choice(["chr1", "chr1", "chr2"]), a, b, rng.choice(["A", "A", "C"]), list(alts)])
         inputs.append(recs)
+    q = rng.random()
+    rectype = "maf" if q < 0.25 else "gdc" if q < 0.45 else "loc"
+    otype = rng.randrange(3)
+    if rectype != "loc":
+        # real MafRecords: alts is [Tumor_Seq_Allele2]; empty cells next to filled ones, Subset favoured
+        otype = rng.choice([0, 1, 2, 2, 2])
+        for recs in inputs:
+            for r in recs:
+                r[ALTS] = rng.choice([[], [], ["A"], ["C"], ["G"], ["T"]])
     case = K._mkcase(rng, "dense", inputs, rng.random() < 0.3, rng.choice([None, list(K.KARYO)]),
-                     "maf" if rng.random() < 0.3 else "loc", 1, rng.randrange(3))
+                     rectype, 1, otype)
     return K.fix_ids(K._sort_inputs(case))
 
 
@@ -186,6 +196,12 @@ def corpus():
                                           R(0, "chr1", 5, 6, alts=("C", "G")), R(0, "chr1", 5, 7, ref="C", alts=("C",))],
                                          [R(0, "chr1", 5, 5, alts=("G", "C")), R(0, "chr1", 5, 5, alts=()),
                                           R(0, "chr1", 6, 6, alts=("C",)), R(0, "chr1", 20, 21, alts=("C",))]],
+                              "calls": 0}))
+    # r2: a real MafRecord with an empty Tumor_Seq_Allele2 has alts [""], which is not a subset of ["T"]
+    for rt in ("maf",):
+        out.append(K.fix_ids({"stream": "corpus", "kind": 1, "otype": 2, "by_barcodes": False, "contigs": None, "rectype": rt,
+                              "inputs": [[R(0, "chr1", 5, 5, alts=("T",)), R(0, "chr1", 5, 5, alts=("",)), R(0, "chr1", 5, 6, alts=("G",))],
+                                         [R(0, "chr1", 5, 5, alts=("",)), R(0, "chr1", 5, 5, alts=("T",)), R(0, "chr1", 6, 6, alts=("G",))]],
                               "calls": 0}))
     return out
 
